@@ -53,9 +53,54 @@ CLAUSES = ["est_dict", "est_vec", "next_agentstate", "pred_dict", "pred_vec", "b
 OTOL = F(1, 10**9)          # the oracle's tolerance when it decides that a property clause fails
 
 
+def _labels(rng, p):
+    """label scheme for states / actions / observations (tagged JSON, see impl/build_pomdp.py:dec_label);
+    None = the integer ids.  Sorted label order differs from id order (random permutation)."""
+    scheme = rng.choice(["int"] * 3 + ["str", "tuple", "falsy", "mixed"])
+    if scheme == "int":
+        return None
+
+    def perm(k):
+        x = list(range(k))
+        rng.shuffle(x)
+        return x
+    n, nA, nO = p["n"], p["nA"], p["nO"]
+    ps, pa, po = perm(n), perm(nA), perm(nO)
+    if scheme == "str":
+        return {"scheme": scheme, "S": [["s", "s%d" % ps[i]] for i in range(n)],
+                "A": [["s", "a%d" % pa[i]] for i in range(nA)], "O": [["s", "o%d" % po[i]] for i in range(nO)]}
+    if scheme == "tuple":
+        return {"scheme": scheme, "S": [["t", [["i", ps[i] // 2], ["s", "xy"[ps[i] % 2]]]] for i in range(n)],
+                "A": [["t", [["s", "act"], ["i", pa[i]]]] for i in range(nA)],
+                "O": [["t", [["i", po[i]]]] for i in range(nO)]}
+    if scheme == "falsy":       # "", (), False / 0.0 are legitimate labels
+        Sp = [["s", ""], ["s", "a"], ["s", "b"], ["s", "c"], ["s", "d"]]
+        Ap = [["t", []], ["t", [["i", 0]]], ["t", [["i", 1]]]]
+        Op = rng.choice([[["b", False], ["b", True], ["i", 2], ["i", 3]], [["f", 0.0], ["f", 0.5], ["i", 2], ["i", 3]]])
+    else:                       # unsortable: msdm falls back to set order
+        Sp = [["i", 0], ["s", "q"], ["i", 7], ["s", ""], ["i", 3]]
+        Ap = [["i", 0], ["s", "go"], ["t", []]]
+        Op = [["i", 0], ["s", "x"], ["t", [["i", 1]]], ["n"]]
+    return {"scheme": scheme, "S": [Sp[ps[i]] for i in range(n)], "A": [Ap[pa[i]] for i in range(nA)],
+            "O": [Op[po[i]] for i in range(nO)]}
+
+
 def gen_case(rng, tier):
-    p = gen_pomdp.gen_pomdp(rng)
-    return {"pomdp": p, "beliefs": gen_pomdp.gen_beliefs(rng, p), "explicit_lists": rng.random() < .3}
+    explicit = rng.random() < .3
+    p = gen_pomdp.gen_pomdp(rng, min_states=1 if rng.random() < .06 else 2, tiny=.4, near_twin=.6, big_rewards=.1,
+                            force_reachable=not (explicit and rng.random() < .5))
+    beliefs = gen_pomdp.gen_beliefs(rng, p, n_grid=2, tiny=True)
+    for be in beliefs:          # how the belief is handed to msdm
+        perm = list(range(p["n"]))
+        if rng.random() < .5:
+            rng.shuffle(perm)
+        be.update({"perm": perm, "rep": "dist" if rng.random() < .3 else "dict",
+                   "vec": rng.choice(["ndarray", "ndarray", "list", "tuple", "intarray"]),
+                   "npidx": rng.random() < .3, "int01": rng.random() < .3,
+                   "own_initial": be["kind"] == "initial" and rng.random() < .7})
+    variant = {"labels": _labels(rng, p), "int01": rng.random() < .3, "dist_types": rng.random() < .3,
+               "order": rng.choice(["matrix-first", "belief-first", "dict-first"])}
+    return {"pomdp": p, "beliefs": beliefs, "explicit_lists": explicit, "variant": variant}
 
 
 # ---- literals -----------------------------------------------------------------
@@ -296,6 +341,25 @@ def _run(ctx, tier):
             ctx.violation("C07:index-lists-differ-from-generator",
                           {"case": case, "lists": [res["state_list"], res["action_list"], res["observation_list"]]}, found=False)
             continue
+        # not clauses of the property, but the same objects: initial belief, action set, repeatability
+        sl = res["state_list"]
+        P_, R_, absf_, ini_, Ob_ = model_arrays(case, res)
+        bi0 = res["belief_initial"]
+        if len(bi0) != 1 or bi0[0][0] != sl or [vlib.frac(x) for x in bi0[0][1]] != ini_ or vlib.frac(bi0[0][2]) != 1:
+            ctx.violation("C07:belief-mdp-initial-state-is-not-the-initial-distribution",
+                          {"case": case, "belief_initial": bi0}, found=False)
+        if any(r["belief_actions"] != res["action_list"] for bo in res["beliefs"] for r in bo["actions"]):
+            ctx.violation("C07:belief-mdp-actions-differ-from-action-list", {"case": case}, found=False)
+        if not all(res["repeat_equal"]):
+            ctx.violation("C07:object-reuse:second-evaluation-on-the-same-objects-differs",
+                          {"case": case, "repeat_equal": res["repeat_equal"]}, found=False)
+        v_ = case.get("variant", {})
+        for k_ in ("order", "int01", "dist_types"):
+            key = "variant_%s=%s" % (k_, v_.get(k_))
+            feats[key] = feats.get(key, 0) + 1
+        key = "labels=%s" % ((v_.get("labels") or {}).get("scheme", "int"))
+        feats[key] = feats.get(key, 0) + 1
+        feats["explicit_lists"] = feats.get("explicit_lists", 0) + int(bool(case.get("explicit_lists")))
         terms.append(case_term(case, res))
         meta.append(i)
         for k, v in gen_pomdp.features(p).items():
@@ -343,7 +407,8 @@ def _run(ctx, tier):
             for ai, flags in enumerate(ares):
                 nevals += 1
                 failed = [c for c, okv in zip(CLAUSES, flags) if not okv]
-                if "belief_next_count" in failed and (not be["dyadic"] or case["pomdp"].get("obs_tiny")):
+                if "belief_next_count" in failed and (not be["dyadic"] or case["pomdp"].get("obs_tiny")
+                                                      or case["pomdp"].get("obs_near_twin")):
                     # float arithmetic is exact only for k/8 data: otherwise rounding may split an exact tie
                     failed.remove("belief_next_count")
                 if not failed:
@@ -360,12 +425,17 @@ def _run(ctx, tier):
     ctx.coverage.update({
         "evaluations": nevals,
         "distinct_nontrivial": len(distinct),
-        "rule": "POMDPs from harness/gen_pomdp.py (2..5 states, 1..3 actions, 1..4 observations, k/8 probabilities with zero entries, "
+        "rule": "POMDPs from harness/gen_pomdp.py (1..5 states (1 state: 6%), 1..3 actions, 1..4 observations, k/8 probabilities with zero entries, "
                 "action-dependent asymmetric observation kernels incl. uninformative / twin-column / deterministic ones, absorbing flags with and "
-                "without exits, rewards, multi-state initial distributions; 40% of the POMDPs have observation entries 2^-30 / 2^-40 = possible but very rare observations); beliefs per POMDP: all vertices, two faces, 2 grid points k/8, beliefs with a component 2^-30, an interior "
+                "without exits, rewards, multi-state initial distributions; 40% of the POMDPs have observation entries 2^-30 / 2^-40 = possible but very rare observations; twin kernels with one column moved by 2^-30 = posteriors ~1e-9 apart that must stay distinct; 10% rewards scaled by 1000 / 2^16; unreachable states under explicit lists); beliefs per POMDP: all vertices, two faces, 2 grid points k/8, beliefs with a component 2^-30, an interior "
                 "point, the initial distribution, absorbing-supported and leaking beliefs, 3 exactly computed reachable beliefs; for every belief all "
                 "actions and all observations incl. impossible ones and one never emitted; distinct = structural hash of the POMDP; non-trivial = "
                 "at least 2 states (all generated cases)",
         "samples": [{"case": cases[0], "impl": impl[0]}] if cases else [],
+        "representations": "labels int/str/tuple/falsy (\"\", (), False, 0.0)/unsortable with sorted order != id order; explicit lists in id order "
+                           "incl. unreachable states; whole-number probabilities/rewards as ints; Deterministic/Uniform/Dict distributions for kernels "
+                           "and beliefs; belief dictionaries/tuples dense, sparse, permuted; vectors as ndarray/list/tuple/int array; numpy indices; "
+                           "BeliefMDP's own initial Belief object; one POMDP class for all objects in a process, three orders of first use, "
+                           "first beliefs re-evaluated at the end on the same objects",
         "pomdps": len(cases), "belief_kinds": kinds, "input_features": feats, **cnt,
     })
